@@ -243,14 +243,14 @@ func Execute(server Server, msg message.AgentMessage) (message.AgentMessage, err
 		go func(inv invocation.Invocation) {
 			defer wg.Done()
 			rcpt, err := Run(server, inv)
+
+			lock.Lock()
+			defer lock.Unlock()
 			if err != nil {
 				rerr = err
 				return
 			}
-
-			lock.Lock()
 			rcpts = append(rcpts, rcpt)
-			lock.Unlock()
 		}(inv)
 	}
 	wg.Wait()
